@@ -10,7 +10,11 @@ use std::collections::VecDeque;
 use std::io::{self, Write};
 use std::mem;
 use std::pin::Pin;
-use std::sync::{Arc, Mutex};
+use std::sync::Arc;
+#[cfg(not(feature = "verif-hooks"))]
+use std::sync::Mutex;
+#[cfg(feature = "verif-hooks")]
+use crate::verif_hooks::Mutex;
 use std::task::Poll;
 
 use http_body::SizeHint;
